@@ -108,6 +108,12 @@ func enumCases() []enumCase {
 			Lines: []string{"enum:map Red Purple"}, Mapping: same, Fail: "enum:map target Purple does not exist"},
 		{Name: "fail_dup_disagree", Src: enumDef{"int", []enumMember{{"Red", "0"}, {"Green", "1"}, {"Blue", "1"}}}, Tgt: rgb("int", "7", "8", "9"),
 			Mapping: same, Fail: "members with equal values map to different targets"},
+		{Name: "fail_alias_member_vs_ignore", Src: enumDef{"int", []enumMember{{"Red", "0"}, {"Green", "1"}, {"Blue", "2"}, {"Azure", "2"}}}, Tgt: rgb("int", "7", "8", "9"),
+			Lines: []string{"enum:map Azure @ignore"}, Mapping: same, Fail: "members with equal values: one maps to a target member, the other to an action"},
+		{Name: "fail_alias_member_vs_panic", Src: enumDef{"int", []enumMember{{"Red", "0"}, {"Green", "1"}, {"Blue", "2"}, {"Azure", "2"}}}, Tgt: rgb("int", "7", "8", "9"),
+			Lines: []string{"enum:map Blue @panic", "enum:map Azure Blue"}, Mapping: same, Fail: "members with equal values: one maps to an action, the other to a target member"},
+		{Name: "fail_alias_two_actions", Src: enumDef{"int", []enumMember{{"Red", "0"}, {"Green", "1"}, {"Blue", "2"}, {"Azure", "2"}}}, Tgt: rgb("int", "7", "8", "9"),
+			Lines: []string{"enum:map Blue @error", "enum:map Azure @ignore"}, Mapping: same, Fail: "members with equal values map to different actions"},
 		{Name: "fail_no_unknown", Src: rgb("int", "0", "1", "2"), Tgt: rgb("int", "7", "8", "9"), Mapping: same, Unknown: "none", Fail: "enum:unknown missing"},
 		// enum detection disabled: plain copy of the basic value
 		{Name: "enum_no", Src: rgb("int", "0", "1", "2"), Tgt: rgb("int", "7", "8", "9"), NoEnum: true, ExtraConv: []string{"enum no"}},
@@ -282,6 +288,32 @@ func FamilyEnum(thorough bool) []*Conv {
 			Aux:          map[string]string{"pfxsrc": ec.Src.source("pfxsrc", "Color"), "pfxtgt": ec.Tgt.source("pfxtgt", "Color")},
 			Imports:      []string{`pfxsrc "corpus/GRP/pfxsrc"`, `pfxtgt "corpus/GRP/pfxtgt"`},
 			Solo:         true,
+		})
+	}
+	// explicit enum:map entries survive when the converter's methods are built more than once (a helper of a
+	// sibling method gains an error result, which makes goverter rebuild)
+	for _, f := range []string{"struct", "function", "variable"} {
+		src := enumDef{"int", []enumMember{{"Red", "0"}, {"Green", "1"}, {"Blue", "2"}}}
+		tgt := enumDef{"int", []enumMember{{"Red", "10"}, {"Green", "20"}, {"Blue", "30"}, {"Azure", "40"}}}
+		k1 := enumDef{"int", []enumMember{{"KA", "0"}, {"KB", "1"}}}
+		k2 := enumDef{"int", []enumMember{{"KA", "5"}, {"KB", "6"}}}
+		es := &EnumSpec{Unknown: "@error", Map: []EnumArm{{"0", "10"}, {"1", "20"}, {"2", "40"}}}
+		ek := &EnumSpec{Unknown: "@error", Map: []EnumArm{{"0", "5"}, {"1", "6"}}}
+		sib := "\tZPFXOther(source PFXS2) (PFXT2, error)\n"
+		if f == "variable" {
+			sib = "\tZPFXOther func(source PFXS2) (PFXT2, error)\n"
+		}
+		out = append(out, &Conv{
+			ID: "enum/map_survives_rebuild/" + f, Family: "enum", Format: f, Solo: true,
+			Params: "source pfxsrc.Color", Results: "(pfxtgt.Color, error)",
+			Decls:        "type PFXS2 struct {\n\tK pfxsrc2.Kind\n\tL []pfxsrc2.Kind\n\tN int\n}\ntype PFXT2 struct {\n\tK pfxtgt2.Kind\n\tL []pfxtgt2.Kind\n\tN int\n}\n",
+			ConvLines:    []string{"enum:unknown @error"},
+			MethodLines:  []string{"enum:map Blue Azure"},
+			ExtraMethods: sib,
+			Spec:         &Spec{Enums: map[string]*EnumSpec{"Color→Color": es, "Kind→Kind": ek}},
+			Aux: map[string]string{"pfxsrc": src.source("pfxsrc", "Color"), "pfxtgt": tgt.source("pfxtgt", "Color"),
+				"pfxsrc2": k1.source("pfxsrc2", "Kind"), "pfxtgt2": k2.source("pfxtgt2", "Kind")},
+			Imports: []string{`pfxsrc "corpus/GRP/pfxsrc"`, `pfxtgt "corpus/GRP/pfxtgt"`, `pfxsrc2 "corpus/GRP/pfxsrc2"`, `pfxtgt2 "corpus/GRP/pfxtgt2"`},
 		})
 	}
 	return out
